@@ -226,7 +226,8 @@ func (p *asciiProver) guardedWhole(fn *ssa.Function, param *ssa.Parameter, at ss
 		if !ok {
 			// helper predicate on the rune
 			for _, ce := range b2.CondEdges() {
-				if _, m := ana.Match("call<*>(ext#2(next(range("+pn+"))))", ce.Lit); m {
+				// the predicate applied to each rune of the string, or to each of its bytes (a byte of a non-ASCII rune is >= 0x80)
+				if _, m := ana.MatchAny(ce.Lit, "call<*>(ext#2(next(range("+pn+"))))", "call<*>(index("+pn+", ind<+1>(0)))", "call<*>(conv<rune>(index("+pn+", ind<+1>(0))))"); m {
 					if h := calleeOf(ce.Lit); h != nil && runeHelperASCII(p.c, h) {
 						ok = forAll(b2, l, ce.Lit.String())
 					}
